@@ -184,7 +184,7 @@ func runCaseInner(c caseSpec, note *string) string {
 	if c.listed {
 		f.SignEventTypes = []string{"other", "audit"}
 	} else {
-		f.SignEventTypes = []string{"other"}
+		f.SignEventTypes = []string{"other", "AUDIT", "Audit", "audit ", "audi"} // near misses are not listed either
 	}
 	predCalls := 0
 	switch predKinds[c.pred] {
@@ -298,6 +298,19 @@ func runCaseInner(c caseSpec, note *string) string {
 		return v
 	}
 	prevEvent, prevKey, prevBytes = e, wantKey, append([]byte(nil), b...)
+	// the same filter formats another event: the document stored for this one must stay as it is
+	{
+		n0 := len(signerInputs)
+		e2 := &el.Event{Type: typ, CreatedAt: created.Add(time.Hour), Formatted: map[string][]byte{}, Payload: plainP{Name: "the second event through the same filter, with a longer name than the first", N: 99}}
+		ctx2, cancel2 := context.WithCancel(context.Background())
+		cancelProcess = cancel2
+		f.Process(ctx2, e2)
+		cancel2()
+		signerInputs = signerInputs[:n0]
+		if now, _ := e.Format(wantKey); !bytes.Equal(now, prevBytes) {
+			return fmt.Sprintf("the document stored for an event changed from %q to %q when the same filter formatted the next event", prevBytes, now)
+		}
+	}
 	_, hasSer := doc["serialized"]
 	_, hasMac := doc["serialized_hmac"]
 	if !mustSign {
